@@ -143,7 +143,7 @@ def permuted_dict(d):
 
 
 def run_shard(shard, tier):
-    return e1.run_shard_generic(shard, tier, ID, check_case, variants=('pickle', 'fromdict-raw'))
+    return e1.run_shard_generic(shard, tier, ID, check_case, variants=('pickle', 'fromdict-raw', 'used'))
 
 
 def main(tier):
